@@ -121,9 +121,19 @@ def run(ctx: C.Ctx):
     # only here, and only when the region is over-full
     plan += [("gqr", "relabel", True)] * ctx.scale(80, 1000)
     plan += [("ccqr", "scale", None)] * ctx.scale(30, 300) + [("gqr", "scale", None)] * ctx.scale(20, 200)
+    # nearly low-rank geometry: after the dominant directions the residual norms drop by many orders of magnitude – the choices
+    # there are still unique, and still a matter of geometry only
+    plan += [("gqr", "orth", "graded")] * ctx.scale(25, 250) + [("gqr", "scale", "graded")] * ctx.scale(15, 150) \
+        + [("ccqr", "orth", "graded")] * ctx.scale(10, 100)
     for idx, (fk, ft, fo) in enumerate(plan):
         n = rng.randint(3, ctx.scale(10, 14)); m = rng.randint(2, ctx.scale(6, 10))
         B = gen.gen_generic_matrix(rng, n, m)
+        if fo == "graded":
+            n, m = max(n, 5), max(m, 4)
+            r_ = rng.randint(1, min(n, m) - 2)
+            B = gen.gen_generic_matrix(rng, n, r_, -4, 4) @ gen.gen_generic_matrix(rng, r_, m, -4, 4) \
+                + gen.gen_generic_matrix(rng, n, m) * 2.0 ** -rng.choice([24, 30, 36])
+            fo = None
         kind = fk or rng.choice(["qr", "ccqr", "gqr", "gqr"])
         case = make_case(rng, B, kind, fo)
         tkind = ft or rng.choice(["orth", "scale", "relabel"])
